@@ -63,6 +63,9 @@ def main(ctx):
                 for exp in range(16):
                     if exp >= 12 and sid.endswith(".batched"):
                         continue
+                    if not thorough and exp >= 13 and \
+                            (bsids.index(sid) + (role == "client")) % 2:
+                        continue
                     jobs.append({"kind": "rs_limit", "role": role, "sid": sid, "exp": exp,
                                  "tier": tier})
         # ---- C. WebSocket subprotocol negotiation
@@ -192,7 +195,12 @@ def exc_name(r):
 
 def job(a):
     acc = Acc()
+    import os
+    import time
+    t0 = time.process_time()
     globals()["job_" + a["kind"]](a, acc)
+    if os.environ.get("VERIF_DEBUG"):
+        acc.inc("cpu_ms|" + a["kind"], int((time.process_time() - t0) * 1000))
     return acc.result()
 
 
@@ -265,9 +273,15 @@ def job_rs_hs(a, acc):
                 if mode == "all" or magic:
                     cutsets, nco = seg4(), 6
                 elif mode == "main":
-                    cutsets, nco = (seg4(), 1) if zero else ([[]], 0)
+                    # every value unsplit (+ coalesced with a first frame for zero reserved octets);
+                    # all 8 segmentations on a diagonal that visits every b2 and every b1
+                    if zero:
+                        cutsets, nco = (seg4() if (b2 & 15) == (b1 & 15) else [[]]), 1
+                    else:
+                        cutsets, nco = [[]], 0
                 else:
-                    cutsets, nco = ([[], [1, 2, 3]], 0) if zero else ([], 0)
+                    # secondary configurations differ only behind a correct magic octet
+                    cutsets, nco = ([[], [1, 2, 3]], 0) if (zero and (b2 & 15) == (b1 & 15)) else ([], 0)
                 for cuts in cutsets:
                     case_rs_hs(acc, role, cfg, raw, cut(raw, cuts), False)
                 if not nco:
@@ -386,6 +400,7 @@ def case_rs_hs(acc, role, cfg, raw, segs, coalesced, sid=None):
 # B. RawSocket negotiated limits
 # ---------------------------------------------------------------------------
 _sized = {}
+_sized_last = {}
 
 
 def sized_message(sid, L):
@@ -399,8 +414,13 @@ def sized_message(sid, L):
     def build(pad, extra):
         m = M.Publish(1, "com.t", args=["a" * pad] + [0] * extra)
         return m, ser.serialize(m)[0]
+    if key in _sized_last:
+        return _sized_last[key]
+    if len(_sized_last) > 3:
+        _sized_last.clear()
     if key in _sized:
-        return build(*_sized[key])
+        _sized_last[key] = build(*_sized[key])
+        return _sized_last[key]
     base = len(build(0, 0)[1])
     if L < base:
         raise ValueError("cannot build a %s message of %d octets" % (sid, L))
@@ -825,7 +845,7 @@ def build_stream(tkind, role, sid, seq):
     return _streams[key]
 
 
-def seg_cutsets(n, bounds, tier, seqlen):
+def seg_cutsets(n, bounds, tier, seqlen, light=False):
     import itertools
     if n <= 12:
         return [[i for i in range(1, n) if mask >> (i - 1) & 1] for mask in range(1 << (n - 1))]
@@ -835,12 +855,12 @@ def seg_cutsets(n, bounds, tier, seqlen):
         for x in (st + 1, st + 2, st + hl - 1, st + hl, st + hl + 1, en - 1, en, en + 1):
             if 0 < x < n:
                 near.add(x)
-    if n <= 160 or tier == "thorough":
+    if tier == "thorough" or n <= (60 if light else 160):
         singles = range(1, n)
     else:
-        singles = sorted(x for x in range(1, n) if x % 5 == 0 or any(abs(x - y) <= 6 for y in near))
+        singles = sorted(x for x in range(1, n) if x % 5 == 0 or any(abs(x - y) <= 4 for y in near))
     out += [[x] for x in singles]
-    if seqlen <= 2 or tier == "thorough":
+    if tier == "thorough" or seqlen <= (1 if light else 2):
         out += [list(p) for p in itertools.combinations(sorted(near), 2)]
     for cs in (2, 3, 7):
         out.append(list(range(cs, n, cs)))
@@ -853,7 +873,7 @@ def job_seq(a, acc):
     nseg = 0
     for seq in seqs:
         stream, bounds, exp = build_stream(tkind, role, sid, seq)
-        cs = seg_cutsets(len(stream), bounds, tier, len(seq))
+        cs = seg_cutsets(len(stream), bounds, tier, len(seq), light=(tkind == "ws"))
         nseg += len(cs)
         for cuts in cs:
             case_seq(acc, tkind, role, sid, seq, cuts, False)
